@@ -29,21 +29,6 @@ def revealSetsList (T : List Digest) (cur : List Digest) : List Env → List Dig
 end
 
 mutual
-/-- `reveal_sets`, second output: the digests strictly above some target (`interior`) -/
-def interiorSets (T : List Digest) (cur : List Digest) : Env → List Digest
-  | .node s as d =>
-    (if memD T d then cur else []) ++ interiorSets T (d :: cur) s ++ interiorSetsList T (d :: cur) as
-  | .wrapped e d =>
-    (if memD T d then cur else []) ++ interiorSets T (d :: cur) e
-  | .assertion p o d =>
-    (if memD T d then cur else []) ++ interiorSets T (d :: cur) p ++ interiorSets T (d :: cur) o
-  | e => if memD T e.digest then cur else []
-def interiorSetsList (T : List Digest) (cur : List Digest) : List Env → List Digest
-  | [] => []
-  | a :: as => interiorSets T cur a ++ interiorSetsList T cur as
-end
-
-mutual
 /-- `remove_all_found`: the targets still missing after visiting the element -/
 def removeAllFound (T : List Digest) : Env → List Digest
   | .node s as d =>
@@ -64,22 +49,73 @@ end
 /-- `contains_all` -/
 def containsAll (e : Env) (T : List Digest) : Bool := (removeAllFound T e).isEmpty
 
+mutual
+/-- `has_target_beneath`: some element strictly beneath this one is a target -/
+def hasTargetBeneath (T : List Digest) : Env → Bool
+  | .node s as _ => (memD T s.digest || hasTargetBeneath T s) || hitList T as
+  | .wrapped e _ => memD T e.digest || hasTargetBeneath T e
+  | .assertion p o _ =>
+    (memD T p.digest || hasTargetBeneath T p) || (memD T o.digest || hasTargetBeneath T o)
+  | _ => false
+/-- `assertions.iter().any(hit)` -/
+def hitList (T : List Digest) : List Env → Bool
+  | [] => false
+  | a :: as => (memD T a.digest || hasTargetBeneath T a) || hitList T as
+end
+
 section
-variable (h : Hash) (A : Aead) (Z : Deflate)
+variable (h : Hash)
+
+mutual
+/-- `revealing_paths_to` (the repaired proof construction): an element is kept only where a
+target lies strictly beneath it; every other element is replaced by its digest -/
+def revealingPathsTo (T : List Digest) : Env → Res Env
+  | .node s as d =>
+    if !hasTargetBeneath T (.node s as d) then .ok (elide (.node s as d)) else
+    match revealingPathsTo T s with
+    | .ok s' =>
+      match revealingPathsToList T as with
+      | .ok as' => newNodeUnchecked h s' as'
+      | .err x => .err x
+      | .panic x => .panic x
+    | .err x => .err x
+    | .panic x => .panic x
+  | .wrapped e d =>
+    if !hasTargetBeneath T (.wrapped e d) then .ok (elide (.wrapped e d)) else
+    match revealingPathsTo T e with
+    | .ok e' => .ok (newWrapped h e')
+    | .err x => .err x
+    | .panic x => .panic x
+  | .assertion p o d =>
+    if !hasTargetBeneath T (.assertion p o d) then .ok (elide (.assertion p o d)) else
+    match revealingPathsTo T p with
+    | .ok p' =>
+      match revealingPathsTo T o with
+      | .ok o' => .ok (newAssertion h p' o')
+      | .err x => .err x
+      | .panic x => .panic x
+    | .err x => .err x
+    | .panic x => .panic x
+  | e => .ok (elide e)
+def revealingPathsToList (T : List Digest) : List Env → Res (List Env)
+  | [] => .ok []
+  | a :: as =>
+    match revealingPathsTo T a with
+    | .ok a' =>
+      match revealingPathsToList T as with
+      | .ok as' => .ok (a' :: as')
+      | .err x => .err x
+      | .panic x => .panic x
+    | .err x => .err x
+    | .panic x => .panic x
+end
 
 /-- `proof_contains_set` -/
 def proofContainsSet (e : Env) (T : List Digest) : Res (Option Env) :=
   let reveal := revealSets T [] e
-  let interior := interiorSets T [] e
   if !(T.all (memD reveal)) then .ok none else
-  -- a target that contains another target stays revealed
-  let elidable := T.filter (fun d => !memD interior d)
-  match elideSet h A Z (memD reveal) true .elide e with
-  | .ok e1 =>
-    match elideSet h A Z (memD elidable) false .elide e1 with
-    | .ok e2 => .ok (some e2)
-    | .err x => .err x
-    | .panic x => .panic x
+  match revealingPathsTo h T e with
+  | .ok p => .ok (some p)
   | .err x => .err x
   | .panic x => .panic x
 
